@@ -1,0 +1,55 @@
+//go:build verif
+
+// Contracts for package morton, read by the verification-condition generator in /verif (gvc).
+// This file contains comments only; it is compiled only with the build tag "verif" and adds no code.
+package morton
+
+//@ func ToZ
+//@   mode bv
+//@   prelude morton
+//@   loop i unroll 5
+//@   ensures[C17] ok == (x <= 0xFFFFFFFF && y <= 0xFFFFFFFF)
+//@   ensures[C17] ok ==> z == interleave(x, y)
+//@
+//@ func FromZ
+//@   mode bv
+//@   prelude morton
+//@   loop i unroll 6
+//@   ensures[C17] x == even_bits(z) && y == even_bits(z >> 1)
+//@
+//@ func MustToZ
+//@   mode bv
+//@   prelude morton
+//@   panics[C17,C06] !(x <= 0xFFFFFFFF && y <= 0xFFFFFFFF)
+//@   ensures[C17] result == interleave(x, y)
+//@
+//@ lemma[C17] roundtrip(x BV64, y BV64)
+//@   mode bv
+//@   prelude morton
+//@   requires x <= 0xFFFFFFFF && y <= 0xFFFFFFFF
+//@   ensures even_bits(interleave(x, y)) == x && even_bits(interleave(x, y) >> 1) == y
+//@
+//@ lemma[C17] injective(x1 BV64, y1 BV64, x2 BV64, y2 BV64)
+//@   mode bv
+//@   prelude morton
+//@   requires x1 <= 0xFFFFFFFF && y1 <= 0xFFFFFFFF && x2 <= 0xFFFFFFFF && y2 <= 0xFFFFFFFF
+//@   requires interleave(x1, y1) == interleave(x2, y2)
+//@   ensures x1 == x2 && y1 == y2
+//@
+//@ lemma[C17] onto(z BV64)
+//@   mode bv
+//@   prelude morton
+//@   ensures even_bits(z) <= 0xFFFFFFFF && even_bits(z >> 1) <= 0xFFFFFFFF
+//@   ensures interleave(even_bits(z), even_bits(z >> 1)) == z
+//@
+//@ lemma[C17,C08] parent(x BV64, y BV64)
+//@   mode bv
+//@   prelude morton
+//@   requires x <= 0xFFFFFFFF && y <= 0xFFFFFFFF
+//@   ensures interleave(x >> 1, y >> 1) == interleave(x, y) >> 2
+//@
+//@ lemma[C17] children(x BV64, y BV64, i BV64)
+//@   mode bv
+//@   prelude morton
+//@   requires x <= 0x7FFFFFFF && y <= 0x7FFFFFFF && i <= 3
+//@   ensures interleave(x*2 + (i & 1), y*2 + ((i & 2) >> 1)) == (interleave(x, y) << 2) | i
